@@ -36,6 +36,8 @@ CONSTANTS Canon,          \* sequence: Canon[r] = canonical block of round r, r 
           MaxFaults,      \* budget of environment faults (crashes, lost files, peers going down)
           MaxCnt,         \* bound on the counter (state constraint of the model checker only)
           MaxLag,         \* the other sharders may be up to MaxLag rounds behind the miners
+          HCAhead,        \* FALSE: healthCheck is only called for rounds up to the LFB round (what HealthCheckWorker does:
+                          \* setCycleBounds takes the LFB round as the high round); TRUE: for any round
           Concurrent      \* TRUE: the health check worker runs while a block is being finalized (as in the node);
                           \* FALSE: smaller configurations without that interleaving
 
@@ -181,6 +183,7 @@ FinalizeTail ==                                     \* rest of chain.finalizeBlo
 
 HC_Begin(r) ==
   /\ hc = NoHC /\ r \in Rounds
+  /\ HCAhead \/ r <= Max(1, RoundOf(lfb))
   /\ Concurrent \/ ufb = NoUFB
   /\ hc' = [r |-> r, stage |-> "round"]
   /\ UNCHANGED <<tip, forks, up, lag, faults, st, lfbP, mem, mround, cur, lfb, bcache, tcache, ufb>>
@@ -310,6 +313,7 @@ AllComplete(exact) == \A r \in 1..tip : CompleteFor(st, CanonF[r], Info, exact, 
 FairSpec == Spec /\ WF_vars(HC_Round) /\ WF_vars(HC_Summary) /\ WF_vars(HC_Block)
                  /\ \A r \in Rounds : SF_vars(HC_Begin(r) /\ ~CompleteFor(st, CanonF[r], Info, FALSE, FALSE))
 EventuallyRepaired == []<>(~Quiet \/ tip < R \/ AllComplete(FALSE))
+EventuallyExact    == []<>(~Quiet \/ tip < R \/ AllComplete(TRUE))   \* with the intended counter only
 
 StateConstraint == \A r \in Rounds : st.cnt[r] <= MaxCnt
 =============================================================================
